@@ -9,6 +9,24 @@ setup_path()
 _TAG = re.compile(r"^d(\d{3})$")
 
 
+# "collide" spelling: per level, digit strings such that different key tuples concatenate to the same text
+# (level 1: a=1 b=11 c=111; level 2: a=12 b=2 c=112 -> (a,a) and (b,b) both read "112"; level 3: a=3 b=13 c=23)
+SPELL = {1: {"a": "1", "b": "11", "c": "111"}, 2: {"a": "12", "b": "2", "c": "112"}, 3: {"a": "3", "b": "13", "c": "23"}}
+
+
+def spell(c, level, sym):
+    if sym == "NULL":
+        return None
+    return SPELL[level][sym] if c.get("spell") == "collide" else sym
+
+
+def unspell(c, level, text):
+    if text == "" or c.get("spell") != "collide":
+        return text
+    inv = {v: k for k, v in SPELL[level].items()}
+    return inv.get(text, "?" + text)
+
+
 def build(c):
     import polars as pl
     import rtflite as rtf
@@ -16,10 +34,11 @@ def build(c):
     gcols = ["G%d" % l for l in range(1, L + 1)]
     data = {}
     for l, g in enumerate(gcols):
-        data[g] = [None if c["keys"][r][l] == "NULL" else c["keys"][r][l] for r in range(n)]
+        data[g] = [spell(c, l + 1, c["keys"][r][l]) for r in range(n)]
     data["ID"] = ["d%03d" % (r + 1) for r in range(n)]
     data["X"] = ["x%d" % (r + 1) for r in range(n)]
-    cols = gcols + ["ID", "X"]
+    # the frame may hold the group_by columns in another order than group_by lists them
+    cols = (list(reversed(gcols)) if c.get("gorder") == "rev" else gcols) + ["ID", "X"]
     combo = c.get("combo", "none")
     kw = dict(group_by=gcols)
     nrow = c["cap"]
@@ -79,7 +98,8 @@ def run_one(sc):
                     tag = int(m.group(1))
             if not tag:
                 continue
-            ev.append({"r": tag, "p": pi + 1, "first": first, "gx": texts[:L], "ox": texts[L:]})
+            gtexts = list(reversed(texts[:L])) if c.get("gorder") == "rev" else texts[:L]
+            ev.append({"r": tag, "p": pi + 1, "first": first, "gx": [unspell(c, l + 1, t) for l, t in enumerate(gtexts)], "ox": texts[L:]})
             first = False
     rec["ev"] = ev
     if sc.get("pred") is not None and sc["pred"].get("outcome") == "ok" and c.get("combo", "none") == "none":
